@@ -497,7 +497,7 @@ func genBundle(g *Gen, o BundleOpts) *Bundle {
 	var plusWhat []string
 	if o.Plus {
 		var what []string
-		mustFail, what = b.injectPlus(rootDefs, paths, aux)
+		mustFail, what = b.injectPlus(rootDefs, paths, aux, params, resps)
 		for _, w := range what {
 			g.hit("plus:" + w)
 		}
@@ -861,6 +861,14 @@ func (b *bgen) injectScenario(name string, rootDefs, paths M, aux map[string]M, 
 			rootDefs["hashHolder"] = M{"type": "object", "properties": M{"one": refTo(n1), "two": M{"type": "array", "items": refTo(n2)}}}
 			paths["/scn/hash2"] = M{"get": resp(M{"$ref": "#/definitions/hashHolder"})}
 		}
+		if g.p(0.5) {
+			// … and from a definition of the auxiliary document that lies on a cycle: in Expand mode the cycle survives the
+			// expansion, and with it the $refs to the twins, which the import phase then has to tell apart
+			local := func(n string) M { return M{"$ref": "#/definitions/" + urlFragEscape(jsonPtrEscape(n))} }
+			aux[ap]["definitions"].(M)["hashLoop"] = M{"type": "object", "properties": M{"again": local("hashLoop"), "one": local(n1), "two": local(n2)}}
+			paths["/scn/hash3"] = M{"get": resp(refTo("hashLoop"))}
+			g.hit("scenario:hash-twins-under-cycle")
+		}
 		g.hit("scenario:hash-twins")
 	case "no-root-definitions":
 		// the root has no definitions section at all; two auxiliary documents define a $ref-free schema under the same name
@@ -1054,6 +1062,22 @@ func (b *bgen) injectScenario(name string, rootDefs, paths M, aux map[string]M, 
 			rootDefs["remoteSiblings"] = M{"allOf": []any{sib, M{"type": "object", "properties": M{"own": M{"type": "string"}}}}}
 		}
 		paths["/scn/remote-siblings"] = M{"get": resp(M{"$ref": "#/definitions/remoteSiblings"})}
+		if g.p(0.5) {
+			// the same shape inside a definition of the auxiliary document: its $refs are rebased while it is imported
+			local := func(n string) M { return M{"$ref": "#/definitions/" + urlFragEscape(jsonPtrEscape(n))} }
+			in := local(x)
+			switch g.n(3) {
+			case 0:
+				in["properties"] = M{"extra": local(inner)}
+			case 1:
+				in["items"] = local(inner)
+			default:
+				in["allOf"] = []any{local(inner)}
+			}
+			aux[ap]["definitions"].(M)["sibInner"] = M{"type": "object", "properties": M{"p": in}}
+			paths["/scn/remote-siblings-inner"] = M{"get": resp(refTo("sibInner"))}
+			g.hit("scenario:remote-ref-siblings-in-import")
+		}
 		g.hit("scenario:remote-ref-siblings")
 	case "empty-mangled-names":
 		// names made of punctuation only (inside the alphabet of W) mangle to the empty string: an imported definition
@@ -1129,7 +1153,7 @@ func (b *bgen) injectScenario(name string, rootDefs, paths M, aux map[string]M, 
 // injectPlus adds constructs of the wider class W+ (C09): anonymous pointers to arbitrary positions, pointers nested in
 // pointer targets, references from auxiliary documents back to the root, non-$ref-free name collisions, dangling $refs.
 // It reports whether some planted $ref cannot be resolved (then Flatten must return an error).
-func (b *bgen) injectPlus(rootDefs, paths M, aux map[string]M) (mustFail bool, what []string) {
+func (b *bgen) injectPlus(rootDefs, paths M, aux map[string]M, params, resps M) (mustFail bool, what []string) {
 	g := b.Gen
 	n := 0
 	resp := func(schema M) M {
@@ -1140,7 +1164,37 @@ func (b *bgen) injectPlus(rootDefs, paths M, aux map[string]M) (mustFail bool, w
 		paths[fmt.Sprintf("/plus/%d", len(paths))] = M{g.pick(allMethods): resp(schema)}
 	}
 	for i, k := 0, 1+g.n(2); i < k; i++ {
-		switch g.n(10) {
+		switch g.n(11) {
+		case 10:
+			// the schema of a shared response / shared body parameter that is an array or a map of itself through an anonymous
+			// pointer to that very schema, and is pointed at from an operation: expanded in place, it must not become a cyclic
+			// structure
+			var target string
+			var sch M
+			mk := func(self string) M {
+				switch g.n(3) {
+				case 0:
+					return M{"type": "array", "items": M{"$ref": self}}
+				case 1:
+					return M{"type": "object", "additionalProperties": M{"$ref": self}}
+				default:
+					return M{"type": "object", "properties": M{"again": M{"$ref": self}, "v": M{"type": "string"}}}
+				}
+			}
+			if g.p(0.5) {
+				target = "#/responses/plusSelfResp/schema"
+				sch = mk(target)
+				resps["plusSelfResp"] = M{"description": "self", "schema": sch}
+			} else {
+				target = "#/parameters/plusSelfParam/schema"
+				sch = mk(target)
+				params["plusSelfParam"] = M{"name": "plusSelf", "in": "body", "schema": sch}
+			}
+			addPath(M{"$ref": target})
+			if g.p(0.5) {
+				addPath(M{"type": "array", "items": M{"$ref": target}})
+			}
+			what = append(what, "shared-schema-of-itself")
 		case 9:
 			// a sub-schema that contains itself through an anonymous pointer (map / array / property of itself), with one
 			// to three callers of that pointer: once the holder has been named, the keys below it are stale
